@@ -40,14 +40,84 @@ def trials_list_field(ctx: Ctx, sd: ClassInfo) -> str:
             base = a[1]
             if isinstance(base, tuple) and base[0] == 'attr':
                 return base[2]
-    raise AnalysisError('SearchData.GetCount is not len(<list attribute>)')
+    # GetCount may report a counter kept next to the list: accepted when the counter is incremented exactly
+    # once with every append (checked here, reported under the append-once rule of the caller)
+    got = _counter_and_list(ctx, sd, gc)
+    if got is not None:
+        return got
+    raise AnalysisError('SearchData.GetCount is neither len(<list attribute>) nor a counter kept with the list')
 
 
-def check_insert(ctx: Ctx, rid: str, ins: FuncInfo, leftF: str, rightF: str, listF: str) -> Dict[str, object]:
-    """Relink shape + append-once of one InsertDataItem implementation.  Returns per-path summaries
-    (used for the sibling comparison)."""
-    find = ins.cls.lookup('FindDataItemByOneDimensionalPoint')
-    ex = ctx.explorer(opaque={find} if find is not None else ())
+def _counter_and_list(ctx: Ctx, sd: ClassInfo, gc: FuncInfo) -> Optional[str]:
+    ex = ctx.explorer()
+    counter = None
+    for p in C.normal_paths(ex.explore(gc)):
+        a = p.value.single_atom() if isinstance(p.value, RF) else None
+        if isinstance(a, tuple) and len(a) == 4 and a[0] == 'attr' and a[1] == key_of(var(gc.param_names[0])):
+            counter = a[2]
+    if counter is None:
+        return None
+    insf = sd.lookup('InsertFirstDataItem')
+    lists = set()
+    for p in C.normal_paths(ex.explore(insf)):
+        for e in p.events:
+            if e.kind == 'call' and e.d['name'] == 'append' and isinstance(e.d.get('recv'), RF):
+                ra = e.d['recv'].single_atom()
+                if isinstance(ra, tuple) and len(ra) == 4 and ra[0] == 'attr' and ra[1] == key_of(var(insf.param_names[0])):
+                    lists.add(ra[2])
+    if len(lists) != 1:
+        return None
+    listF = next(iter(lists))
+    # pairing: on every path of every method of the container, appends to the list = increments of the counter
+    ok = True
+    where = gc.loc()
+    n = 0
+    for c in [sd] + sd.all_subclasses():
+        for m in c.methods.values():
+            if m.kind != 'function' or m.name == '__init__' or not m.param_names:
+                continue
+            try:
+                paths = C.normal_paths(ex.explore(m))
+            except AnalysisError:
+                continue
+            selfk = key_of(var(m.param_names[0]))
+            for p in paths:
+                apps = [e for e in p.events if e.kind == 'call' and e.d['name'] == 'append' and
+                        isinstance(e.d.get('recv'), RF) and C.strip_versions(key_of(e.d['recv'])) == ('attr', selfk, listF)]
+                incs = [e for e in p.events if e.kind == 'store' and e.d['tkind'] == 'attr' and e.d['field'] == counter
+                        and key_of(e.d['base']) == selfk]
+                if apps or incs:
+                    n += 1
+                if len(apps) != len(incs):
+                    ok, where = False, m.loc()
+                for j, e in enumerate(incs):
+                    v = e.d['value']
+                    # the j-th increment on the path leaves entry value + j
+                    base_ = (v - RF.const(j + 1)).single_atom() if isinstance(v, RF) else None
+                    good = isinstance(base_, tuple) and len(base_) == 4 and base_[0] == 'attr' and base_[2] == counter
+                    if not good:
+                        ok, where = False, m.loc()
+    init = sd.lookup('__init__')
+    for p in C.normal_paths(ex.explore(init)):
+        v = p.state.heap.get((key_of(var(init.param_names[0])), counter))
+        if not (isinstance(v, RF) and v.const_value() == 0):
+            ok, where = False, init.loc()
+    ctx.check(ok and n > 0, 'R19.3', 'SearchData.GetCount', where,
+              f'GetCount reports the counter {counter}, incremented exactly once with every append to {listF}',
+              f'GetCount reports the counter {counter}, which is not incremented exactly once with every append to '
+              f'{listF} (or does not start at 0): the reported count is not the number of inserted items',
+              key='R19.3::SearchData.GetCount::counter-pairing')
+    return listF
+
+
+def check_insert(ctx: Ctx, rid: str, ins: FuncInfo, leftF: str, rightF: str, listF: str,
+                 cls: Optional[ClassInfo] = None) -> Dict[str, object]:
+    """Relink shape + append-once of one InsertDataItem implementation, run on a receiver of class cls (hooks the
+    insertion calls on self dispatch through that class).  Returns per-path summaries (used for the sibling
+    comparison)."""
+    cls = cls or ins.cls
+    find = cls.lookup('FindDataItemByOneDimensionalPoint')
+    ex = ctx.explorer(opaque={find} if find is not None else (), self_cls=cls)
     ps = ins.param_names
     selfv, new, right = var(ps[0]), var(ps[1]), var(ps[2])
     summaries = []
